@@ -50,6 +50,7 @@ typedef struct vd_cfg {
     const char *warp_type, *warp_params;   /* vocal tract length normalisation (NULL = none) */
     int skip_tmat;           /* use a copy of the model's transition matrices with Bakis skip arcs added (0->2, 1->exit) */
 } vd_cfg;
+extern const char *vd_loglevel;   /* "loglevel" of every configuration made by vd_make_config ("FATAL" unless a harness changes it) */
 void vd_cfg_default(vd_cfg *c, int lang);
 config_t *vd_make_config(const vd_cfg *c);
 /* cached per process (one decoder per distinct vd_cfg, at most 4 kept) */
